@@ -1,5 +1,235 @@
-//! In-process relation sweeps (filled in below).
-pub fn main(_args: &[String]) {
-    eprintln!("no sweeps yet");
-    std::process::exit(2);
+//! In-process relation sweeps: the property relations evaluated directly on the implementation
+//! over exhaustively enumerated token strings (no model involved). Prints
+//! `VIOL <property> <hex input> <detail>` for each violating input (first few per property) and
+//! `COUNT prop=<id> evaluated=<n> nontrivial=<n>` at the end.
+
+use crate::fmt::hex;
+use ppp::{v1, HeaderResult, PartialResult};
+use std::panic::{catch_unwind, AssertUnwindSafe};
+use std::sync::atomic::{AtomicU64, Ordering};
+use std::sync::Mutex;
+
+const TOKENS: [&[u8]; 18] = [
+    b"PROXY", b"PROX", b"P", b"TCP4", b"TCP6", b"TCP", b"T", b"UNKNOWN", b"UNKN", b" ", b"\r", b"\n", b"1.2.3.4",
+    b"::1", b"80", b"+8", b"\xc3\xa9", b"X",
+];
+const TRAILERS: [&[u8]; 6] = [b"X", b"\r\n", b"\n", b"0", b" ", b"PROXY UNKNOWN\r\n"];
+
+struct Stats {
+    evaluated: [AtomicU64; 5],
+    nontrivial: [AtomicU64; 5],
+    viol: Mutex<Vec<String>>,
+}
+
+const PROPS: [&str; 5] = ["C03", "C04", "C05", "C16", "C18"];
+
+fn report(st: &Stats, p: usize, input: &[u8], detail: &str) {
+    let mut v = st.viol.lock().unwrap();
+    let n = v.iter().filter(|l| l.starts_with(&format!("VIOL {}", PROPS[p]))).count();
+    if n < 8 {
+        v.push(format!("VIOL {} {} {}", PROPS[p], hex(input), detail.replace(' ', "_")));
+    }
+}
+
+#[derive(PartialEq, Clone, Copy, Debug)]
+enum Class {
+    Ok,
+    Inc,
+    Term,
+}
+
+fn class_b(r: &Result<v1::Header<'_>, v1::BinaryParseError>) -> Class {
+    match r {
+        Ok(_) => Class::Ok,
+        Err(_) if r.is_incomplete() => Class::Inc,
+        Err(_) => Class::Term,
+    }
+}
+
+fn class_s(r: &Result<v1::Header<'_>, v1::ParseError>) -> Class {
+    match r {
+        Ok(_) => Class::Ok,
+        Err(_) if r.is_incomplete() => Class::Inc,
+        Err(_) => Class::Term,
+    }
+}
+
+/// C03: every entry point and accessor returns normally.
+fn touch_everything(x: &[u8]) {
+    let rb = v1::Header::try_from(x);
+    if let Ok(h) = &rb {
+        let _ = (h.protocol().len(), h.addresses_str().len(), h.to_string().len(), h.to_owned());
+    }
+    let ra = HeaderResult::parse(x);
+    let _ = (ra.is_incomplete(), ra.is_complete());
+    if let Ok(s) = std::str::from_utf8(x) {
+        let rs = v1::Header::try_from(s);
+        if let Ok(h) = &rs {
+            let _ = (h.protocol().len(), h.addresses_str().len(), h.to_string().len(), h.to_owned());
+        }
+        let _ = s.parse::<v1::Header<'static>>();
+        let _ = s.parse::<v1::Addresses>();
+    }
+}
+
+fn check(st: &Stats, x: &[u8]) {
+    let r = catch_unwind(AssertUnwindSafe(|| touch_everything(x)));
+    st.evaluated[0].fetch_add(1, Ordering::Relaxed);
+    if r.is_err() {
+        report(st, 0, x, "panic");
+        return;
+    }
+    let cr = x.iter().position(|&c| c == b'\r');
+    if let Some(i) = cr {
+        if i + 1 == x.len() || (i + 1 < x.len() && x[i + 1] >= 0x80) {
+            st.nontrivial[0].fetch_add(1, Ordering::Relaxed);
+        }
+    }
+    let rb = v1::Header::try_from(x);
+    let cb = class_b(&rb);
+    let text = std::str::from_utf8(x).ok();
+
+    // C16: the four entry points agree
+    if let Some(s) = text {
+        st.evaluated[3].fetch_add(1, Ordering::Relaxed);
+        let rs = v1::Header::try_from(s);
+        let fh = s.parse::<v1::Header<'static>>();
+        let fa = s.parse::<v1::Addresses>();
+        let end = match cr {
+            Some(i) => std::cmp::min(i + 2, x.len()),
+            None => x.len(),
+        };
+        let mid = end < x.len() && (x[end] & 0xC0) == 0x80;
+        let agree = if mid {
+            rs.is_err() && fh.is_err() && fa.is_err() && rb.is_err()
+        } else {
+            match (&rs, &fh, &fa, &rb) {
+                (Ok(a), Ok(b), Ok(c), Ok(d)) => a == b && a == d && a.addresses == *c && b.to_owned() == *a,
+                (Err(a), Err(b), Err(c), Err(v1::BinaryParseError::Parse(d))) => a == b && a == c && a == d,
+                _ => false,
+            }
+        };
+        if mid || rs.is_ok() {
+            st.nontrivial[3].fetch_add(1, Ordering::Relaxed);
+        }
+        if !agree {
+            report(st, 3, x, "entry points disagree");
+        }
+    }
+
+    // C18: frozen => complete
+    let frozen = match cr {
+        Some(i) => i + 1 < x.len(),
+        None => x.len() >= 107,
+    };
+    if frozen {
+        st.evaluated[4].fetch_add(1, Ordering::Relaxed);
+        if cb != Class::Ok {
+            st.nontrivial[4].fetch_add(1, Ordering::Relaxed);
+        }
+        if cb == Class::Inc {
+            report(st, 4, x, "frozen but incomplete (bytes)");
+        }
+        if let Some(s) = text {
+            if class_s(&v1::Header::try_from(s)) == Class::Inc {
+                report(st, 4, x, "frozen but incomplete (str)");
+            }
+        }
+    }
+
+    if let Ok(h) = &rb {
+        let hdr = h.header.as_bytes().to_vec();
+        // C04: trailing bytes never change an accepted result
+        st.evaluated[1].fetch_add(1, Ordering::Relaxed);
+        st.nontrivial[1].fetch_add(1, Ordering::Relaxed);
+        if !x.starts_with(&hdr) || !hdr.ends_with(b"\r\n") {
+            report(st, 1, x, "reported header is not a CRLF-terminated prefix of the input");
+        }
+        let mut buf = Vec::with_capacity(hdr.len() + 20);
+        for t in TRAILERS.iter() {
+            buf.clear();
+            buf.extend_from_slice(&hdr);
+            buf.extend_from_slice(t);
+            match v1::Header::try_from(&buf[..]) {
+                Ok(h2) if h2 == *h => {}
+                _ => report(st, 1, &buf, "result changes when bytes follow the header"),
+            }
+            match HeaderResult::parse(&buf[..]) {
+                HeaderResult::V1(Ok(h2)) if h2 == *h => {}
+                _ => report(st, 1, &buf, "auto result changes when bytes follow the header"),
+            }
+        }
+        match v1::Header::try_from(&hdr[..]) {
+            Ok(h2) if h2 == *h => {}
+            _ => report(st, 1, &hdr, "reported header alone is not accepted identically"),
+        }
+        // C05: every proper prefix of an accepted ASCII header is incomplete
+        if hdr.is_ascii() {
+            st.evaluated[2].fetch_add(hdr.len() as u64, Ordering::Relaxed);
+            st.nontrivial[2].fetch_add(1, Ordering::Relaxed);
+            for c in 0..hdr.len() {
+                let p = &hdr[..c];
+                let a = class_b(&v1::Header::try_from(p));
+                let b = class_s(&v1::Header::try_from(std::str::from_utf8(p).unwrap()));
+                let au = HeaderResult::parse(p);
+                if a != Class::Inc || b != Class::Inc || !au.is_incomplete() || au.is_complete() {
+                    report(st, 2, p, "proper prefix of an accepted header is not incomplete");
+                    break;
+                }
+            }
+        }
+    }
+}
+
+fn rec(st: &Stats, buf: &mut Vec<u8>, depth: usize) {
+    check(st, buf);
+    if depth == 0 {
+        return;
+    }
+    for t in TOKENS.iter() {
+        let n = buf.len();
+        buf.extend_from_slice(t);
+        rec(st, buf, depth - 1);
+        buf.truncate(n);
+    }
+}
+
+pub fn main(args: &[String]) {
+    match args.first().map(|s| s.as_str()) {
+        Some("v1tokens") => {
+            let k: usize = args.get(1).and_then(|s| s.parse().ok()).unwrap_or(4);
+            let st = Stats {
+                evaluated: Default::default(),
+                nontrivial: Default::default(),
+                viol: Mutex::new(Vec::new()),
+            };
+            check(&st, b"");
+            std::thread::scope(|s| {
+                for t in TOKENS.iter() {
+                    let st = &st;
+                    s.spawn(move || {
+                        if k >= 1 {
+                            let mut buf = t.to_vec();
+                            rec(st, &mut buf, k - 1);
+                        }
+                    });
+                }
+            });
+            for l in st.viol.lock().unwrap().iter() {
+                println!("{}", l);
+            }
+            for (i, p) in PROPS.iter().enumerate() {
+                println!(
+                    "COUNT prop={} evaluated={} nontrivial={}",
+                    p,
+                    st.evaluated[i].load(Ordering::Relaxed),
+                    st.nontrivial[i].load(Ordering::Relaxed)
+                );
+            }
+        }
+        _ => {
+            eprintln!("usage: pppharness sweep v1tokens <k>");
+            std::process::exit(2);
+        }
+    }
 }
